@@ -287,7 +287,7 @@ func init() {
 		Technique:   "stateless model checking of the implementation: exhaustive preemption-bounded schedule enumeration under a controlled cooperative scheduler over auto-instrumented sources; auxiliary free-running race-detector pass",
 		Rule:        "states = scenarios x independence verdict; transitions = scheduling points passed; traces_validated_against_impl = schedules executed on the real (instrumented) code; oracle = equality with the solo result of each thread under the same per-thread tape",
 		Assumptions: commonAssume,
-		Runs:        []Run{{Pkg: hp + "c20", Variant: "instr", Procs: 4}, {Pkg: hp + "c20race", Variant: "real", Race: true, Shards: 3, Procs: 16, Optional: true}},
+		Runs:        []Run{{Pkg: hp + "c20", Variant: "instr", Procs: 4}, {Pkg: hp + "c20race", Variant: "scryptrec", Race: true, Shards: 3, Procs: 16, Optional: true}},
 	}
 }
 
